@@ -124,6 +124,12 @@ func run(e *core.Env) {
 			continue
 		}
 		ip := ipOf(tp.Intn(12))
+		if len(st.FriendConfigs) > 0 && tp.Chance(1, 3) {
+			// wave 15: a second name for a router that is a friend already (two entries, one address)
+			prev := st.FriendConfigs[tp.Intn(len(st.FriendConfigs))]
+			ip = netip.MustParseAddr(prev.IP)
+			e.Probe("two_friend_names_for_one_router")
+		}
 		st.FriendConfigs = append(st.FriendConfigs, config.FriendConfig{Name: l, IP: ip.String()})
 		mo.friends[l] = ip
 	}
